@@ -434,6 +434,15 @@ def c18_run(base_seed, index, tier, nt, *, forced=None, cfg_override=None,
                                      "src": {"data": f"s:m{tid}.{cs}.x"},
                                      **({"kind": "k0"} if typed else {})}, index_every=False)
                     sched.pause()
+                    if "save_meta" in cfg["reader_ops"]:
+                        # edit the metadata dicts that a save_meta snapshot aliases
+                        stamped = [m for m in slot.model.root.iter_pre() if m.explicit][:2]
+                        for k, m in enumerate(stamped):
+                            run_step(world, {"id": 100002 + tid * 1000 + cs * 10 + k,
+                                             "k": "meta", "node": m.uid, "fn": "set",
+                                             "key": "t", "value": f"{tid}.{cs}"},
+                                     index_every=False)
+                        sched.pause()
                     for _ in range(cfg["n_mut"]):
                         op = next_op(rng)
                         if any(rx.search(make_plan(world, op).trigger) for rx in avoid):
